@@ -139,8 +139,23 @@ def check_minres(idx: ProgramIndex, rep: Report):
                                       "the returned solution is not multiplied back by rhs_norm: the solve of the normalised "
                                       "system is returned, so the result is not linear in b", fn.loc(r)))
     # the mask must not be skippable: it lies on every path loop -> return
-    mask_nodes = {n.id for n in cfg.stmt_nodes() if n.kind == "stmt" and not _inside(loop_ast, n.ast) and any(
-        nm == sol and "rhs_is_zero" in rd for nm, rd in _defs_of(n.ast))}
+    # the zeroing must be a SELECTION (masked_fill / where / masked assignment) applied to the solution itself:
+    # multiplying by a zero factor does not remove the NaN / inf that a zero column produces inside the recurrences
+    SELECTORS = ("masked_fill_", "masked_fill", "where", "masked_scatter_", "index_fill_", "nan_to_num")
+    mask_nodes = set()
+    for n in cfg.stmt_nodes():
+        if n.kind != "stmt" or _inside(loop_ast, n.ast) or not any(nm == sol and "rhs_is_zero" in rd for nm, rd in _defs_of(n.ast)):
+            continue
+        sel = any(isinstance(x, ast.Call) and ((isinstance(x.func, ast.Attribute) and x.func.attr in SELECTORS) or
+                                                (dotted(x.func) or "").split(".")[-1] in SELECTORS) for x in ast.walk(n.ast)) \
+            or (isinstance(n.ast, ast.Assign) and isinstance(n.ast.targets[0], ast.Subscript))
+        if sel and loop.id in cfg.dominators(n.id):
+            mask_nodes.add(n.id)
+    if not mask_nodes:
+        rep.bad("C11.M1", Finding(PROP, "C11.M1", F, "no masked selection of the solution by rhs_is_zero after the loop",
+                                  "after the iteration no masked_fill / where / masked assignment zeroes the solution where "
+                                  "rhs_is_zero holds; folding the mask into a multiplicative factor does not help: the recurrences "
+                                  "produce NaN for a zero column (0/0) and NaN * 0 is NaN", fn.loc(loop_ast)))
     if mask_nodes:
         h = cfg.g.copy()
         h.remove_nodes_from(mask_nodes)
@@ -536,12 +551,45 @@ def check_ciq(idx: ProgramIndex, rep: Report):
                 split_lo = "[" + norm(sl) + "]"
             elif isinstance(sl, ast.Constant):
                 noshift_idx = sl.value
+    # local aliases of the quadrature size (N = num_contour_quadrature)
+    aliases = {st.targets[0].id for st in walk_body(fn) if isinstance(st, ast.Assign) and isinstance(st.targets[0], ast.Name)
+               and isinstance(st.value, ast.Name) and st.value.id == N}
+
+    def offset2(e: ast.AST) -> Optional[int]:
+        o = offset(e)
+        if o is not None:
+            return o
+        if isinstance(e, ast.Name) and e.id in aliases:
+            return 0
+        if isinstance(e, ast.BinOp) and isinstance(e.op, ast.Add):
+            for a_, b_ in ((e.left, e.right), (e.right, e.left)):
+                if isinstance(a_, ast.Name) and a_.id in aliases and isinstance(b_, ast.Constant):
+                    return b_.value
+        return None
+
+    # row counts as the reader sees them: weights = <...>.view(Nw, ...), shifts = <...>.view(Ns, ...)
+    for st in walk_body(fn):
+        if isinstance(st, ast.Assign) and isinstance(st.targets[0], ast.Name) and st.targets[0].id in ("weights", "shifts") \
+                and isinstance(st.value, ast.Call) and isinstance(st.value.func, ast.Attribute) and st.value.func.attr in ("view", "reshape") \
+                and st.value.args:
+            o = offset2(st.value.args[0])
+            if o is not None:
+                alloc.setdefault("view:" + st.targets[0].id, o)
+        if isinstance(st, ast.Assign) and isinstance(st.value, ast.Call) and dotted(st.value.func) in ("torch.zeros", "torch.empty") \
+                and st.value.args and isinstance(st.targets[0], ast.Name) and st.targets[0].id not in alloc:
+            o = offset2(st.value.args[0])
+            if o is not None:
+                alloc[st.targets[0].id] = o
     ws = {k: v for k, v in alloc.items() if "weight" in k}
     ss = {k: v for k, v in alloc.items() if "shift" in k}
     if not ws or not ss or split_lo is None or noshift_idx is None:
         raise AnalysisError(f"contour_integral_quad: cannot recover the offset table (alloc={alloc}, fills={fills}, split={split_lo}, noshift={noshift_idx})")
+    if len(set(ss.values())) != 1 or len(set(ws.values())) != 1:
+        rep.bad("C11.Q2", Finding(PROP, "C11.Q2", F, f"row counts disagree: {alloc}",
+                                  f"contour_integral_quad allocates / views the shift and weight tables with different row counts ({alloc})",
+                                  fn.loc()))
     k = next(iter(ss.values())) - next(iter(ws.values()))
-    sname = next(iter(ss))
+    sname = next((n_ for n_ in ss if n_ in fills), next(iter(ss)))
     table = {"shift_rows_minus_weight_rows": k, "fill_from_row": fills.get(sname), "split_from_row": split_lo, "no_shift_row": noshift_idx}
     conds = [(k == split_lo, f"{k} extra shift rows are allocated but the solves are split at row {split_lo}"),
              (fills.get(sname) == k, f"the computed shifts are stored from row {fills.get(sname)} but {k} leading rows are reserved for the un-shifted solve"),
